@@ -173,8 +173,12 @@ class Sched:
         plain = tuple(f for f in files if "::" not in f)
         scoped = [(f.split("::")[0], frozenset(f.split("::")[1].split("|"))) for f in files if "::" in f]
 
+        everything = "*pyoda_time*" in plain
+
         def wanted(code):
             fn = code.co_filename
+            if everything and "/pyoda_time/" in fn.replace("\\", "/"):
+                return True
             if plain and fn.endswith(plain):
                 return True
             for f, names in scoped:
